@@ -72,6 +72,7 @@ def run(ctx, R):
     R.rule("r4", "EdgeInfo::is_mandatory is true only if not folded-optional, not optional and not recursive")
     R.rule("r5", "fold_requires_at_least_one_element: Included(x) -> x>=1, Excluded(x) -> any, Unbounded/All/Impossible -> false")
     static_hint_soundness(ctx, R)
+    dynamic_hint_pairing(ctx, R)
 
     # ---------------- r1
     tables = []
@@ -387,6 +388,95 @@ def run(ctx, R):
                 lits = [strip(arm_value(a["body"])) for a in exc]
                 R.check(bool(exc) and not any(x.get("k") == "lit" and x.get("v") is True and False for x in lits), "r5",
                         "range/Excluded", C.loc(bms[0]["sp"]), "Excluded arm missing")
+
+
+# ---- r7: the dynamic hint pairs an operator with the tag of the *same* filter -------------------------------------------
+def dynamic_hint_pairing(ctx, R):
+    """VertexInfo::dynamically_required_property is abstractly evaluated on a vertex that carries two tag-based filters on the
+    requested property (every ordered pair of supported operators, distinct tags): the DynamicallyResolvedValue it returns
+    must take its operator and its tag from one and the same filter; and with a tag whose vertex is not computed yet it must
+    not use that filter at all."""
+    import itertools
+    from tfv import absint as A
+    from tfv import stdmodel as M
+    C = ctx.core
+    IRp = "trustfall_core::ir::"
+    VIp = "trustfall_core::interpreter::hints::vertex_info::"
+    R.rule("r7", "dynamically_required_property: operator and tag come from the same @filter; tags of vertices not yet computed are not used")
+    impl = [f for f in C.fns if f.get("impl_trait") == VIp + "VertexInfo" and f["name"] == "dynamically_required_property"]
+    stat = [f for f in C.fns if f.get("impl_trait") == VIp + "VertexInfo" and f["name"] == "statically_required_property"]
+    if len(impl) != 1 or len(stat) != 1:
+        R.fail("r7", "anchor", "-", "expected one impl of VertexInfo::dynamically_required_property / statically_required_property")
+        return
+    g = impl[0]
+    I = M.intrinsics()
+    BOUND = "core::ops::range::Bound"
+    acc = {"non_binding_filters": lambda s: False, "execution_frontier": lambda s: A.Enum(BOUND, "Included", [5]),
+           "current_vertex": lambda s: s.fields["vertex"], "current_component": lambda s: s.fields["component"],
+           "starting_component": lambda s: s.fields["component"], "query": lambda s: A.Sym("query"),
+           "query_variables": lambda s: M.MapV()}
+    for nm, fn_ in acc.items():
+        I[VIp + "InternalVertexInfo::" + nm] = (lambda fn_: lambda ip, n, a: fn_(A.deref(a[0])))(fn_)
+    I[VIp + "VertexInfo::statically_required_property"] = lambda ip, n, a: ip.call_fn(stat[0], a)
+
+    def contains(ip, n, a):
+        rng, x = A.deref(a[0]), A.deref(a[1])
+        lo, hi = [A.deref(b) for b in rng.elems]
+
+        def ok(b, cmp_incl, cmp_excl):
+            if b.variant == "Unbounded":
+                return True
+            v = A.deref(b.fields[0])
+            return cmp_incl(v) if b.variant == "Included" else cmp_excl(v)
+        return ok(lo, lambda v: v <= x, lambda v: v < x) and ok(hi, lambda v: x <= v, lambda v: x < v)
+    I["core::ops::range::RangeBounds::contains"] = contains
+    TY_N = A.Sym("Int?")
+
+    def tagarg(vid, name):
+        return A.Enum(IRp + "Argument", "Tag", [A.Enum(IRp + "FieldRef", "ContextField", [A.Struct(IRp + "ContextField", {
+            "vertex_id": vid, "field_name": name, "field_type": TY_N})])])
+
+    def lf():
+        return A.Struct(IRp + "LocalField", {"field_name": "prop", "field_type": A.Struct("FakeType", {})})
+    I["trustfall_core::ir::types::base::Type::nullable"] = lambda ip, n, a: True
+    ops = ["Equals", "NotEquals", "LessThan", "LessThanOrEqual", "GreaterThan", "GreaterThanOrEqual", "OneOf"]
+    bad = None
+    n = 0
+    try:
+        for o1, o2 in itertools.permutations(ops, 2):
+            for (v1, v2) in ((1, 2), (2, 9), (9, 2)):          # vid 9 lies beyond the execution frontier (5): not computed yet
+                filters = A.VecV([A.Enum(IRp + "Operation", o1, [lf(), tagarg(v1, "tag_a")]),
+                                  A.Enum(IRp + "Operation", o2, [lf(), tagarg(v2, "tag_b")]),
+                                  A.Enum(IRp + "Operation", "Equals", [A.Struct(IRp + "LocalField", {"field_name": "other", "field_type": A.Struct("FakeType", {})}), tagarg(1, "tag_c")])])
+                vertex = A.Struct(IRp + "IRVertex", {"vid": 6, "type_name": "T", "coerced_from_type": M.none(), "filters": filters})
+                comp = A.Struct(IRp + "IRQueryComponent", {"root": 1, "vertices": M.MapV([(6, vertex)]), "edges": M.MapV([]), "folds": M.MapV([]), "outputs": M.MapV([])})
+                recv = A.Struct("FakeVertexInfo", {"vertex": vertex, "component": comp})
+                ip = A.Interp(C, I, max_steps=200000)
+                res = A.deref(ip.call_fn(g, [recv, "prop"]))
+                n += 1
+                usable = [(o, t) for o, t, v in ((o1, "tag_a", v1), (o2, "tag_b", v2)) if v <= 5]
+                if res.variant == "None":
+                    if usable and bad is None:
+                        bad = {"filters": [(o1, "tag_a", v1), (o2, "tag_b", v2)], "got": "no hint", "usable": usable}
+                    continue
+                drv = A.deref(res.fields[0])
+                fld = A.deref(drv.fields["field"])
+                got = (A.deref(drv.fields["operation"]).variant, A.deref(A.deref(fld.fields[0]).fields["field_name"]))
+                if got not in usable and bad is None:
+                    bad = {"filters": [(o1, "tag_a", v1), (o2, "tag_b", v2)], "hint_uses": got, "usable (operator, tag) pairs": usable}
+    except A.Unsupported as e:
+        R.fail("r7", "unanalysable", C.loc(g["sp"]), "abstract evaluation of dynamically_required_property failed: %s (fail closed)" % e)
+        return
+    except A.PanicReached as e:
+        R.fail("r7", "panic", C.loc(g["sp"]), "dynamically_required_property panics: %s" % e.what)
+        return
+    R.floor("r7", "filter pairs evaluated", n, 100)
+    R.check(bad is None, "r7", "operator-and-tag-from-one-filter", C.loc(g["sp"]),
+            "with the filters %s on one property (frontier at vid 5) the dynamic hint is built from %s, which is not one of the usable "
+            "filters %s: the candidate combines one filter's operator with another filter's tag (or a tag that is not computed yet), so an "
+            "adapter that prunes by it drops matching vertices"
+            % (bad and bad["filters"], bad and (bad.get("hint_uses") or bad.get("got")), bad and (bad.get("usable (operator, tag) pairs") or bad.get("usable"))),
+            {"cases": n})
 
 
 # ---- r6: value-level soundness of the static hints ---------------------------------------------------------------------
